@@ -66,7 +66,7 @@ var tiers = map[string]map[string]tierCfg{
 		"thorough": {Runs: 1200, Workers: 16, WorkerTimeout: 3 * time.Hour},
 	},
 	"C12": {
-		"quick":    {Runs: 192, Workers: 16, WorkerTimeout: 8 * time.Minute, Race: true, PerRunProcess: true},
+		"quick":    {Runs: 192, Workers: 16, WorkerTimeout: 8 * time.Minute, Race: true, PerRunProcess: true, Instrument: true},
 		"thorough": {Runs: 4000, Workers: 16, WorkerTimeout: 3 * time.Hour, Race: true, PerRunProcess: true, Instrument: true},
 	},
 }
